@@ -245,9 +245,11 @@ example : compiles exF2 = true := by decide
 
 /-- F3 programs: as F2, and `switch (op) { case …: … default: … }` with `break`, fall-through from one case block into the next,
 several cases (and the default) sharing a block, `CaseValue` under `SwitchScenario`; nested in any way with ifs and loops
-(`cgStmts 3`).  Not in F3: a switch without cases, a header op that ends the routine, more than one default, a case block that
-consists of a single `break` / `continue` / `break_loop` (`_process_block` may fold such a block into the case's header
-jump). -/
+(`cgStmts 3`); a switch without cases is its header operation.  Not in F3: a header op that ends the routine; more than one
+default; a case block that consists of a single `break` / `continue` / `break_loop` / `jump` (`_process_block` may fold such a
+block into the case's header jumps) if control can fall into it from the block before — it is in F3 if it is the first block
+of the switch, a default block, or the block before it ends in `return` / `end` / `hold` / `break` / `continue` / `break_loop` /
+`jump`. -/
 def F3Prog (p : Program) : Prop := CgProg 3 p
 
 instance (p : Program) : Decidable (F3Prog p) := by unfold F3Prog; infer_instance
@@ -324,5 +326,32 @@ def exF4 : Program :=
 example : F4Prog exF4 := by decide
 example : ¬ F3Prog exF4 := by decide
 example : compiles exF4 = true := by decide
+
+/-- a jump to a label that is defined nowhere -/
+def undefJumpProg : Program := ⟨[], [], [⟨some 0, "r", none, .cons (.op "a" []) (.cons (.jump "nowhere") .nil)⟩]⟩
+
+theorem undef_graph : (toSrc undefJumpProg).graph =
+    ⟨#[.halt evReturn, .halt (evInvalid "undefined label nowhere"), .emit ⟨"a", []⟩ 1], [some 2]⟩ := by
+  have h1 : (toSrc undefJumpProg).routines = [⟨some (.cons (.op "a" []) (.cons (.jump "nowhere") .nil))⟩] := rfl
+  have h2 : (toSrc undefJumpProg).macros = [] := rfl
+  simp only [Src.Program.graph, h1, h2, Src.allRoutineLabels, Src.labelsOfStmts, Src.labelsOf, List.flatMap_cons, List.flatMap_nil,
+    List.append_nil, Src.allocLabels, List.foldl_nil, List.foldl_cons]
+  simp only [Src.trStmts, Src.tr, Src.lookupLabel, Src.invalid, Src.B.push, Src.substEv]
+  rfl
+
+/-- **The conjunct "every label mentioned is defined" of `CgProg` is needed for `codegen_correct`.**  The front end accepts
+`def 0 { a(); jump @nowhere; }` (the back end's label finalizer does not: `compile` fails, and so does the real compiler,
+"Label nowhere does not exist, but a jump to it does"); the labelled code ends in `!STUCK`, the language semantics in
+"undefined label nowhere". -/
+theorem undefined_label_counterexample :
+    ¬ F4Prog undefJumpProg ∧ compiles undefJumpProg = false ∧
+    frontOps undefJumpProg = some [[.op ⟨1, "a", []⟩, .ljump ⟨2, "Jump", []⟩ (some 1)]] ∧
+    (run (labLTS [[.op ⟨1, "a", []⟩, .ljump ⟨2, "Jump", []⟩ (some 1)]]) (fun _ => true) 6 0 (⟨0, 0⟩ : LPos)).1 =
+      [.op ⟨"a", []⟩, .stop evStuck] ∧
+    (toSrc undefJumpProg).graph.entries = [some 2] ∧
+    (run (toSrc undefJumpProg).graph.lts (fun _ => true) 6 0 (2 : Nat)).1 =
+      [.op ⟨"a", []⟩, .stop (evInvalid "undefined label nowhere")] := by
+  rw [undef_graph]
+  decide +kernel
 
 end ESV.C01Frontend
